@@ -106,7 +106,7 @@ func poison(x any) {
 			b := f.Bytes()
 			b = b[:cap(b)]
 			for k := range b {
-				b[k] = 0xdb
+				b[k] = 0x47 // the most harmful stale content for a TS parser: everything looks like a sync byte
 			}
 		}
 	}
@@ -299,6 +299,7 @@ func scenarios(tier string) []scen {
 			{"full PES headers + descriptor zoo", []int{5, 6}, []int{3, 2}},
 			{"adaptation-field variety (packets + data)", []int{7, 8}, []int{3, 2}},
 			{"split section headers + descriptor zoo", []int{9, 6}, []int{3, 1}},
+			{"short auto-detected inputs + demuxer packets", []int{10, 4}, []int{3, 2}},
 		}
 	}
 	return []scen{
@@ -308,6 +309,7 @@ func scenarios(tier string) []scen {
 		{"full PES headers + descriptor zoo", []int{5, 6}, []int{2, 1}},
 		{"adaptation-field variety (packets + data)", []int{7, 8}, []int{2, 1}},
 		{"split section headers + descriptor zoo", []int{9, 6}, []int{1, 1}},
+		{"short auto-detected inputs + demuxer packets", []int{10, 4}, []int{1, 1}},
 	}
 }
 
